@@ -79,6 +79,31 @@ def build(r):
     return debcon.Debian822()
 
 
+def run_history(d, ops):
+    out = []
+    for o in ops:
+        try:
+            if o[0] == 's':
+                d[o[1]] = o[2]
+                out.append(None)
+            elif o[0] == 'g':
+                out.append(d[o[1]])
+            elif o[0] == 'd':
+                del d[o[1]]
+                out.append(None)
+            elif o[0] == 'c':
+                out.append(o[1] in d)
+            elif o[0] == 'l':
+                out.append(len(d))
+            elif o[0] == 'i':
+                out.append(list(iter(d)))
+            else:
+                out.append([[k, v] for k, v in d.to_dict().items()])
+        except KeyError:
+            out.append(Exc('KeyError'))
+    return out
+
+
 def observe(opname, inp):
     if opname == 'C19':
         r, ops = inp
@@ -86,27 +111,36 @@ def observe(opname, inp):
             d = build(r)
         except Exception as e:
             return [Exc(type(e).__name__)] * len(ops)
-        out = []
-        for o in ops:
-            try:
-                if o[0] == 's':
-                    d[o[1]] = o[2]
-                    out.append(None)
-                elif o[0] == 'g':
-                    out.append(d[o[1]])
-                elif o[0] == 'd':
-                    del d[o[1]]
-                    out.append(None)
-                elif o[0] == 'c':
-                    out.append(o[1] in d)
-                elif o[0] == 'l':
-                    out.append(len(d))
-                elif o[0] == 'i':
-                    out.append(list(iter(d)))
-                else:
-                    out.append([[k, v] for k, v in d.to_dict().items()])
-            except KeyError:
-                out.append(Exc('KeyError'))
+        out = run_history(d, ops)
+        # "however it was built": the same history on a paragraph built from a mapping that is itself a
+        # paragraph answers the same, and a plain dictionary is a copy: the
+        # construction argument and the new object never share state
+        try:
+            if r[0] == 'm' and r[1]:
+                plain = {}
+                for k, v in r[1]:
+                    plain[k] = v
+                src = debcon.Debian822(dict(plain))
+                before = list(src.to_dict().items())
+                d2 = debcon.Debian822(src)
+                if run_history(d2, ops) != out:
+                    out.append(Exc('MappingRoutesDiffer'))
+                if list(src.to_dict().items()) != before:
+                    out.append(Exc('SourceMutated'))
+                snap = list(d2.to_dict().items())
+                src['zz-probe'] = '1'
+                for k in list(src.to_dict()):
+                    if k != 'zz-probe':
+                        del src[k]
+                if list(d2.to_dict().items()) != snap:
+                    out.append(Exc('AliasedToSource'))
+                src3 = dict(plain)
+                d3 = debcon.Debian822(src3)
+                run_history(d3, ops)
+                if src3 != plain:
+                    out.append(Exc('SourceMutated'))
+        except Exception as e:
+            out.append(Exc('Route' + type(e).__name__))
         return out
     if opname == 'C19t':
         d = {}
